@@ -28,6 +28,7 @@ func c12Child(args []string) {
 	n, _ := strconv.Atoi(args[0])
 	runtime.GOMAXPROCS(n)
 	run := vx.NewRun("C12", "exploration", args[1:])
+	activeRun = run
 	for i, c := range c12Cases(run) {
 		d, err := c.run()
 		if err != nil {
